@@ -78,35 +78,50 @@ func (fr *Frame) execInstrs(b *ssa.BasicBlock, start int, st *State, l *Loop) []
 		}
 		if call, isCall := ins.(*ssa.Call); isCall {
 			vc.pendingAlt = nil
+			vc.pendingMore = nil
 			fr.env[call] = fr.call(call, st)
 			if alt := vc.pendingAlt; alt != nil {
+				alts := append(append([]*retEdge{}, vc.pendingMore...), alt)
 				vc.pendingAlt = nil
-				mainVal := fr.env[call]
-				mainReach := st.Reach
-				// values this block defines after the call, per fork
+				vc.pendingMore = nil
+				// the rest of the block runs once per group; later blocks see the call result and the values this block
+				// defines after the call as a case distinction over the groups
+				accVal := fr.env[call]
+				accReach := st.Reach
 				out := fr.execInstrs(b, idx+1, st, l)
-				mainDefs := map[ssa.Value]Value{}
+				accDefs := map[ssa.Value]Value{}
 				for _, nx := range b.Instrs[idx+1:] {
 					if v, ok := nx.(ssa.Value); ok {
 						if val, have := fr.env[v]; have {
-							mainDefs[v] = val
+							accDefs[v] = val
 						}
 					}
 				}
-				mainRets := len(fr.rets)
-				fr.env[call] = alt.Val
-				out = append(out, fr.execInstrs(b, idx+1, alt.St, l)...)
-				_ = mainRets
-				// later blocks see the call result and the rest of this block's values as a case distinction
-				fr.env[call] = iteValue(mainReach, mainVal, alt.Val)
-				for v, mv := range mainDefs {
-					if av, have := fr.env[v]; have && !sameValue(av, mv) {
-						if merged, ok := tryIte(mainReach, mv, av); ok {
-							fr.env[v] = merged
+				for _, a := range alts {
+					fr.env[call] = a.Val
+					out = append(out, fr.execInstrs(b, idx+1, a.St, l)...)
+					accVal = iteValue(accReach, accVal, a.Val)
+					for _, nx := range b.Instrs[idx+1:] {
+						v, ok := nx.(ssa.Value)
+						if !ok {
+							continue
 						}
-					} else if !have {
-						fr.env[v] = mv
+						av, have := fr.env[v]
+						mv, had := accDefs[v]
+						switch {
+						case have && had && !sameValue(av, mv):
+							if merged, ok := tryIte(accReach, mv, av); ok {
+								accDefs[v] = merged
+							}
+						case have && !had:
+							accDefs[v] = av
+						}
 					}
+					accReach = Or(accReach, a.St.Reach)
+				}
+				fr.env[call] = accVal
+				for v, mv := range accDefs {
+					fr.env[v] = mv
 				}
 				return out
 			}
